@@ -322,6 +322,13 @@ fn eval_with(case: &Case, run: &dyn Fn(&[u8]) -> Obs, via: Via, custom: Option<C
                             Some((l, c, _)) => {
                                 // (0, 0) stands for "where variant 0 reports it".
                                 let want = if ps[i] == (0, 0) { msg_of(o0).map(|m| (m.0, m.1)).unwrap_or((0, 0)) } else { ps[i] };
+                                if ps[i] == (0, 0) {
+                                    // ... and with the same positions inside slots.
+                                    let line = |x: &Obs| String::from_utf8_lossy(&x.err).lines().next().unwrap_or("").to_string();
+                                    if line(o) != line(o0) {
+                                        return Verdict::Fail(format!("variant {i} reports {:?}, variant 0 {:?}", line(o), line(o0)));
+                                    }
+                                }
                                 if (l, c) != want {
                                     return Verdict::Fail(format!("variant {i} reports {l}:{c}, the token is at {}:{}", want.0, want.1));
                                 }
@@ -409,14 +416,14 @@ pub fn is_front_error(o: &Obs) -> bool {
 
 // ------------------------------------------------------------------ JSON
 
-fn bytes_json(b: &[u8]) -> Value {
+pub fn bytes_json(b: &[u8]) -> Value {
     match std::str::from_utf8(b) {
         Ok(s) => json!({"text": s}),
         Err(_) => json!({"hex": b.iter().map(|x| format!("{x:02x}")).collect::<String>()}),
     }
 }
 
-fn bytes_from(v: &Value) -> Option<Vec<u8>> {
+pub fn bytes_from(v: &Value) -> Option<Vec<u8>> {
     if let Some(s) = v.get("text").and_then(|x| x.as_str()) {
         return Some(s.as_bytes().to_vec());
     }
